@@ -665,7 +665,10 @@ def gen_cli(rng):
             "mode": mode, "prio": prio,
             "cli_n": rng.choice([None, None, 1, 2, 3]),       # -n on the dedupe command line (both runs)
             # how the input roots are named: relative to --base-dir, itself relative to the working directory of `group`
-            "basedir": rng.choice(["default", "dot", "rel", "rel_nested", "dotdot", "abs"])}
+            "basedir": rng.choice(["default", "dot", "rel", "rel_nested", "dotdot", "abs"]),
+            # one input path of `group` is given THROUGH A SYMBOLIC LINK to its directory (the header records it as typed;
+            # the dedupe command must use the canonical form the reported paths have)
+            "root_via_link": rng.below(3) if rng.chance(1, 3) else None}
 
 
 def run_cli(ctx, spec, model_bin, fclones, tree, count=True):
@@ -696,6 +699,11 @@ def run_cli(ctx, spec, model_bin, fclones, tree, count=True):
             os.utime(p, (f["mtime"] + 5, f["mtime"]))
     with open(os.path.join(tree, roots[0], "uniq"), "w") as fh:
         fh.write("only one copy")
+    groots = list(roots)
+    if spec.get("root_via_link") is not None:
+        i = spec["root_via_link"] % len(roots)
+        os.symlink(os.path.join(tree, roots[i]), os.path.join(tree, "lnk_root"))
+        groots[i] = "lnk_root"
     isolate, hlinks, transform, mode, prio = spec["isolate"], spec["hlinks"], spec["transform"], spec["mode"], spec["prio"]
     gopts = []
     if isolate:
@@ -732,14 +740,14 @@ def run_cli(ctx, spec, model_bin, fclones, tree, count=True):
     def bitstr(pats, subject):
         return "".join("1" if glob_match(g, subject) else "0" for g in pats) or "-"
     env = dict(os.environ, RAYON_NUM_THREADS="2")
-    g = sh([fclones, "group"] + bopts + gopts + roots, gcwd, env=env)
+    g = sh([fclones, "group"] + bopts + gopts + groots, gcwd, env=env)
     if g.returncode != 0:
         raise RuntimeError("fclones group failed: " + g.stderr[-500:])
     report_h = g.stdout
     lines = report_h.split("\n")
     ci = [i for i, l in enumerate(lines) if l.startswith("# Command:")][0]
     plain = list(lines)
-    plain[ci] = "# Command: fclones group " + " ".join(roots)      # a `group` command without the options
+    plain[ci] = "# Command: fclones group " + " ".join(groots)      # a `group` command without the options
     report_0 = "\n".join(plain)
     a = sh([fclones, "remove", "--dry-run"] + popts, other, stdin=report_h, env=env)
     n_inh = 0 if mode in (3, 4) else (rfo if rfo is not None else 1)
@@ -811,6 +819,7 @@ def run_cli(ctx, spec, model_bin, fclones, tree, count=True):
         ctx.distinct(("cli", json.dumps(spec, sort_keys=True)), isinstance(ra, list) and len(ra) > 0)
         ctx.bump("cli_group_options", " ".join(gopts) or "(none)")
         ctx.bump("cli_base_dir", bmode)
+        ctx.bump("cli_group_root_through_a_symlink", spec.get("root_via_link") is not None)
         ctx.bump("cli_transform_mode", spec.get("transform") if spec.get("transform") is not True else "stream")
         for i in range(0, len(select), 2):
             ctx.bump("cli_selection_pattern", select[i] + " " + select[i + 1])
